@@ -175,6 +175,12 @@ static std::string path_op(rlbox::rlbox_sandbox<Sbx>& sb, const std::string& op,
       rlbox::tainted<T, Sbx> x = *p;
       return "ok " + to_dec(as_math(x.UNSAFE_unverified()));
     }
+    if (op == "tvload_u") { // the OTHER load route: unwrap the tainted_volatile directly (get_raw_value), no tainted<T> in between
+      if (!representable<G>(v)) return "badinput";
+      auto p = sb.template malloc_in_sandbox<T>();
+      write_guest<G>(p.UNSAFE_unverified(), v);
+      return "ok " + to_dec(as_math((*p).UNSAFE_unverified()));
+    }
     if (op == "tvstore_t") { // store a tainted<T> (cond2 path)
       if (!representable<T>(v)) return "badinput";
       auto p = sb.template malloc_in_sandbox<T>();
